@@ -404,5 +404,8 @@ func genMixed(t *rapid.T, profile string) *Case {
 	}
 	ops := rapid.SliceOfN(rapid.Custom(func(t *rapid.T) Op { return g.op(t) }), 1, 35).Draw(t, "ops")
 	c.Ops = append(c.Ops, ops...)
+	if profile == "C05" && pct(t, 10, "blockedcallee") {
+		appendBlockedCallee(t, c)
+	}
 	return c
 }
